@@ -131,11 +131,13 @@ def lcmv(d, ctx):
                     'lcmv-constraint', f'f={f} k={k}: w^H a = {c}, r = {r[k]} '
                     f'(cond G {condG:.1e}, allowed {cast + back:.1e})')
         ref = ob.lcmv(atf[:, f], r, phi[f])
-        cast_all = float(np.max(np.abs(np.asarray(r).astype(np.complex64) - r))) * 1.01
+        # w = M r with M = Phi^-1 A G^-1 (up to conjugation conventions): the
+        # single-precision storage of r moves w by at most |M|_2 |r - float32(r)|
+        dr = np.asarray(r).astype(np.complex64).astype(np.complex128) - r
+        Mmat = np.linalg.solve(phi[f], atf[:, f].T) @ np.linalg.inv(G)
+        sens = float(np.linalg.norm(Mmat, 2)) * float(np.linalg.norm(dr))
         require_close(w[f], ref, 'lcmv-closed-form',
-                      atol=np.linalg.norm(ref) * (
-                          (cast_all / max(np.abs(r).max(), 1e-300) + back) * max(1.0, condG)
-                      ) + 1e-300)
+                      atol=2.0 * sens + np.linalg.norm(ref) * back * max(1.0, condG) + 1e-300)
         # minimum variance among all vectors meeting the constraints: add any
         # vector orthogonal to every steering vector
         A = atf[:, f].T                                        # (D, K)
@@ -238,7 +240,13 @@ def reference_channel(d, ctx):
     phi_xx, a, tk = _target(d, rng, D, F, min(cond, 1e3), scale)
     mu = d.choice([0.0, 0.5, 1.0, 10.0, 100.0])
     which = d.choice(['souden', 'wmwf'])
-    ctx.describe(D=D, F=F, which=which, mu=mu, target=tk)
+    level = 1.0
+    if d.epoch >= 3 and d.aux(119).integers(0, 3) == 0:
+        # "invariant to positive scaling ... of both jointly": recordings of any
+        # level (PSDs of 1e-30..1e10), the selection criterion is a ratio
+        level = float(10.0 ** d.aux(120).uniform(-30, 10))
+        phi_xx, phi_nn = phi_xx * level, phi_nn * level
+    ctx.describe(D=D, F=F, which=which, mu=mu, target=tk, level=level)
     g = np.stack([np.linalg.solve(phi_nn[f], phi_xx[f]) for f in range(F)])
     tr = np.trace(g, axis1=-1, axis2=-2).real[:, None, None]
     if which == 'souden':
